@@ -16,7 +16,10 @@ func (i *Item) DedupeItems() error {
 			continue
 		}
 		if existing, ok := urls[node.url.String()]; ok {
-			if existing.status != ItemCompleted && !existing.IsSeed() && node.status == ItemCompleted { // Keep the completed item
+			// Keep the completed item, otherwise keep the item that already has children:
+			// removing it would discard its whole subtree and the URLs only found there
+			preferNode := node.status == ItemCompleted || (len(node.children) > 0 && len(existing.children) == 0)
+			if existing.status != ItemCompleted && !existing.IsSeed() && preferNode {
 				existing.parent.RemoveChild(existing)
 				urls[node.url.String()] = node
 			} else {
